@@ -196,9 +196,32 @@ def main(ids, matrix="/tmp/ev_matrix"):
         print(sid, "suite:", out_s[0][:40], "| demo without:", rc0, "| with:", rc1, "| detected by:", sorted(detected), "| other:", sorted(other))
 
 
+def index():
+    """seeded/INDEX.md: one line per stored seed - what it needs to manifest and which obligations of its own check report it."""
+    rows = []
+    for sid in sorted(os.listdir(os.path.join(V, "seeded"))):
+        p = os.path.join(V, "seeded", sid, "meta.json")
+        if not os.path.isfile(p):
+            continue
+        m = json.load(open(p))
+        own = m["checks_reporting_a_violation"].get(m["breaks_property"], [])
+        others = sorted(k for k in m["checks_reporting_a_violation"] if k != m["breaks_property"])
+        val = m["validated"]
+        ok = val["suite_with_change"].startswith("273 passed") and val["demo_without_change"]["exit"] == 0 and val["demo_with_change"]["exit"] != 0
+        rows.append(f"| {sid} | {m['needs_to_manifest']} | {'; '.join('`' + o + '`' for o in own[:4]) + (' ...' if len(own) > 4 else '') or '-'} | "
+                    f"{', '.join(others) or '-'} | {'yes' if ok else 'NO'} |")
+    with open(os.path.join(V, "seeded", "INDEX.md"), "w") as f:
+        f.write("# Stored property-breaking changes\n\nGenerated by `tools/seed_meta.py` from `seeded/*/meta.json` (validation: suite passes with the change, "
+                "demo passes without it and fails with it; obligations: from the last matrix run of every seed against its own check).\n\n"
+                "| seed | what it takes to manifest | obligations of its own check that report it | other checks that report it (when run) | validated |\n|---|---|---|---|---|\n")
+        f.write("\n".join(rows) + "\n")
+
+
 if __name__ == "__main__":
     args = sys.argv[1:]
     mdir = "/tmp/ev_matrix"
     if args and args[0] == "--matrix":
         mdir, args = args[1], args[2:]
-    main(args or sorted(os.listdir(os.path.join(V, "seeded"))), mdir)
+    if args != ["--index-only"]:
+        main(args or sorted(d for d in os.listdir(os.path.join(V, "seeded")) if os.path.isdir(os.path.join(V, "seeded", d))), mdir)
+    index()
